@@ -283,7 +283,7 @@ func genArgFault(r *Rng, d *DeclSpec, p *Plan, twinCalls []Call) (f ArgFault, ok
 		oi := cands[r.Intn(len(cands))]
 		f.Opt = oi.Path
 		f.EnvKey = envFullOf(d, oi)
-		f.EnvVal = r.Pick([]string{"x!y", "", "1.2.3", "--"})
+		f.EnvVal = r.Pick([]string{"x!y", "1.2.3", "--", "12x"})
 		f.Expect = "marshal"
 		return f, true
 	case "callee":
@@ -303,7 +303,7 @@ func genArgFault(r *Rng, d *DeclSpec, p *Plan, twinCalls []Call) (f ArgFault, ok
 		k := r.Pick(kinds)
 		f.Callee = &CalleeFault{Kind: k, Nth: r.Intn(counts[k]), ID: 100 + r.Intn(900)}
 		if k == "execute" || k == "handler" {
-			f.Callee.Form = r.Pick([]string{"", "", "flags:help", "flags:required", "flags:unknown", "wrap:help", "wrap:marshal", "flags:command required"})
+			f.Callee.Form = r.Pick([]string{"", "", "flags:help", "flags:required", "flags:unknown", "wrap:help", "wrap:marshal", "flags:command required", "flags:help-empty", "typed-nil"})
 		}
 		switch k {
 		case "callback", "unmarshal":
